@@ -849,6 +849,11 @@ impl Property for C07 {
             }
             o.class("exchange-spanning-a-reconnection");
             if o.fail.is_none() {
+                let n_old = 1 + (h / 7 % 3) as usize;
+                o.fail = c07_after_expired_session(n_old, (h / 21) as usize % n_old, 1 + (h / 63 % 3) as usize);
+                o.class("subscriptions-after-an-expired-session");
+            }
+            if o.fail.is_none() {
                 o.fail = c07_across_resumption((h / 135 % 4) as u8);
                 o.class("subscriptions-across-a-resumption");
             }
@@ -1289,6 +1294,100 @@ pub fn c07_across_resumption(variant: u8) -> Option<Failure> {
             sig: "C07/stream/message-lost/across-resumption".into(),
             msg: format!("a message for an acknowledged subscription arriving on the resumed connection was not yielded ({} items; {how})", w.streams[stream].items.len()),
         });
+    }
+    None
+}
+
+/// The session of the earlier connection has EXPIRED when the Context connects again (hook: lost
+/// longer ago than the Session Expiry Interval): its subscriptions are gone. `n_old` subscriptions
+/// existed then and each got a message (the last one to subscription `last`); `n_new` subscriptions
+/// are made on the new connection; the first application message of the new connection carries an
+/// identifier of the OLD session and must reach no stream, the next one addresses a new
+/// subscription and reaches exactly that one.
+pub fn c07_after_expired_session(n_old: usize, last: usize, n_new: usize) -> Option<Failure> {
+    use crate::world::World;
+    let plan = WritePlan::default();
+    let mut w = World::new();
+    let spec = ConnectSpec { session_expiry: Some(2), client_id: Some("c07x".into()), ..Default::default() };
+    if connect_and_run(&mut w, spec.clone(), &rc::Connack::default(), &plan).is_err() {
+        return None;
+    }
+    let mut tr = Tracker::new();
+    tr.skip_existing(&mut w);
+    let mut sub = |w: &mut World, tr: &mut Tracker, tag: usize| -> Option<(usize, u32)> {
+        let op = w.start_op(0, OpSpec::Subscribe(tagged_subscribe(tag, 1)))?;
+        settle(w, &plan, true);
+        tr.update(w);
+        let pid = tr.pid(op)?;
+        let sid = tr.sub_id(op)?;
+        feed_packet(w, &rc::Packet::Suback(rc::AckList { pid, reasons: vec![0], ..Default::default() }), &rc::Form::canonical());
+        settle(w, &plan, true);
+        let stream = w.make_stream(op)?;
+        Some((stream, sid))
+    };
+    let msg = |sid: u32, k: u8| rc::encode(&rc::Packet::Publish(rc::Publish { qos: 0, topic: "c07x/t".into(), payload: vec![k], subscription_ids: vec![sid], ..Default::default() }), &rc::Form::canonical());
+    let mut old = vec![];
+    for k in 0..n_old {
+        old.push(sub(&mut w, &mut tr, k)?);
+    }
+    for k in (0..n_old).filter(|k| *k != last).chain([last]) {
+        w.tick();
+        w.reader.feed(msg(old[k].1, k as u8));
+        settle(&mut w, &plan, true);
+    }
+    w.tick();
+    w.reader.set_eof();
+    settle(&mut w, &plan, true);
+    if w.run_result.is_none() || !w.mark_disconnected(10) || !w.set_up_again() {
+        return None;
+    }
+    let spec2 = ConnectSpec { clean_start: Some(false), ..spec };
+    if connect_and_run(&mut w, spec2, &rc::Connack::default(), &plan).is_err() {
+        return None;
+    }
+    tr.skip_existing(&mut w);
+    let mut new = vec![];
+    for k in 0..n_new {
+        let Some(x) = sub(&mut w, &mut tr, 100 + k) else {
+            return Some(Failure { sig: "HARNESS/c07-expired-session/subscribe-not-tracked".into(), msg: format!("new subscribe {k}: panics {:?}, run {:?}", w.panics, w.run_result) });
+        };
+        new.push(x);
+    }
+    drop(sub);
+    // a message carrying an identifier of the expired session
+    w.tick();
+    w.reader.feed(msg(old[last].1, 200));
+    settle(&mut w, &plan, true);
+    if let Some(p) = first_panic(&w) {
+        return Some(Failure { sig: format!("PANIC/{}", panic_sig(&p)), msg: p });
+    }
+    if w.run_result.is_some() {
+        return None; // C13's claim
+    }
+    let how = format!("{n_old} subscription(s) in the expired session, the last message went to number {last}; {n_new} new subscription(s)");
+    for (k, (stream, sid)) in new.iter().enumerate() {
+        w.drain_stream(*stream);
+        if !w.streams[*stream].items.is_empty() {
+            return Some(Failure {
+                sig: "C07/stream/extra-message/after-expired-session".into(),
+                msg: format!("new subscription {k} (identifier {sid}) yielded a message that carries identifier {} of the expired session ({how})", old[last].1),
+            });
+        }
+    }
+    // and regular traffic reaches exactly its subscription
+    let target = n_new - 1;
+    w.tick();
+    w.reader.feed(msg(new[target].1, 201));
+    settle(&mut w, &plan, true);
+    for (k, (stream, _)) in new.iter().enumerate() {
+        w.drain_stream(*stream);
+        let want = usize::from(k == target);
+        if w.streams[*stream].items.len() != want && !w.streams[*stream].ended {
+            return Some(Failure {
+                sig: if want == 1 { "C07/stream/message-lost/after-expired-session".into() } else { "C07/stream/extra-message/after-expired-session".into() },
+                msg: format!("new subscription {k} yielded {} message(s), expected {want} ({how})", w.streams[*stream].items.len()),
+            });
+        }
     }
     None
 }
